@@ -9,6 +9,6 @@ CONSTANTS
   MaxTicks = 3
   Weaken = "none"
   StopRoles <- NoRoles
-INVARIANTS TypeOK Fidelity NoSilentCorruption NoFalseSuccess ShortPauseCompletes
+INVARIANTS TypeOK ClaimsAll Fidelity NoSilentCorruption NoFalseSuccess ShortPauseCompletes
 PROPERTIES Termination NoDataWhilePaused
 CHECK_DEADLOCK FALSE
